@@ -27,6 +27,7 @@ from sx import Sym, Str
 PROP = "C10"
 PROP_FILE = "C10_EntJson"
 THEOREMS = []
+LEVEL = "proof" if THEOREMS else "exploration"
 
 MANIFEST = {
     "text": "Gallina transcription of the entity/context JSON layer (CedarValueJson::from_expr/from_value with the "
